@@ -46,6 +46,7 @@ def main():
     rc, out = sh('cargo test --workspace --offline 2>&1')
     fails = re.findall(r'test result: FAILED', out)
     res['suite_with_patch'] = 'passes' if rc == 0 and not fails else 'FAILS'
+    os.makedirs(os.path.dirname(os.path.join(WT, place)), exist_ok=True)
     shutil.copy(demo, os.path.join(WT, place))
     rc1, out1 = sh('cargo test --offline -p %s --test %s 2>&1' % (crate, test))
     res['demo_with_patch'] = 'fails' if rc1 != 0 else 'PASSES'
